@@ -25,6 +25,15 @@ b"), evaluated for the new event b against every earlier event a of the history:
     Vector   a->b <=>  vc(a).happened_before(vc(b));  never vc(b).happened_before(vc(a)) (b is
              later in the history so b->a is impossible); is_concurrent(a,b) <=> a,b unordered
 
+    Vector   merge (documented "element-wise max (no increment) ... a combined view"): for the new event b
+             and every earlier event a the merged views a.merge(b) and b.merge(a) must both be the
+             component-wise maximum of the two snapshots (a missing component is 0), i.e. merge is
+             commutative; each operand must be ordered before-or-equal to the view and never after it
+             (the library's own happened_before on the returned clock); a.merge(a) == a; and over the
+             current clocks of three nodes (x+y)+z == x+(y+z) (one rotation per event, by its index).  The clocks are built knowing all ids
+             ('full'), only their own id ('self'), their own and the next node's id ('partial') or only the
+             OTHER ids ('others'), so operands with different key sets are the common case.
+
 Timestamps: Lamport = ``clock.time`` after the step; vector = a deep copy of the clock after the
 step; HLC = the value returned by now()/send(); for a receive (which returns nothing) either the
 value of an immediately following now() (mode 'now', public API only) or the clock's stored last
@@ -67,7 +76,7 @@ class Histories:
 
     cfg = dict(kind='lamport'|'vector'|'hlc', n=2|3, L=steps, variant=..., prefix=[labels])
       lamport variant: tuple of initial counter values per node
-      vector  variant: 'full' (every node knows all ids) | 'self' (each clock is built knowing only itself)
+      vector  variant: 'full' (every node knows all ids) | 'self' (only itself) | 'partial' (itself + next) | 'others'
       hlc     variant: (models per node, rx mode 'now'|'last')   models: 'id','wall','+skew','-skew','fast','slow'
     """
 
@@ -113,6 +122,8 @@ class Histories:
         self.viol = {}
         self.samples = []
         self.reorder_seen = 0
+        self.merges = 0
+        self.check_merge = self.kind == "vector" and hasattr(VectorClock, "merge")
 
     # ------------------------------------------------------------------
     def _fresh(self, i):
@@ -121,6 +132,10 @@ class Histories:
         if self.kind == "vector":
             if self.variant == "full":
                 return VectorClock(self.ids[i], list(self.ids))
+            if self.variant == "partial":
+                return VectorClock(self.ids[i], [self.ids[i], self.ids[(i + 1) % self.n]])
+            if self.variant == "others":
+                return VectorClock(self.ids[i], [x for x in self.ids if x != self.ids[i]])
             return VectorClock(self.ids[i], [self.ids[i]])
         nc = self.nodeclocks[i]
         if nc is None:
@@ -154,6 +169,9 @@ class Histories:
         if op == "s":
             ts = clock.now() if (self.rx_mode == "last" and not self.with_local) else clock.send()
             return ts, ts
+        if self.rx_mode == "last" and hasattr(payload, "to_dict") and hasattr(type(payload), "from_dict"):
+            # the message carries the timestamp as a plain dict ("for embedding in event contexts")
+            payload = type(payload).from_dict(payload.to_dict())
         clock.receive(payload)
         if self.rx_mode == "last":
             ts = getattr(clock, "_last", None)
@@ -270,11 +288,77 @@ class Histories:
                     out.append((f"VectorClock/is-concurrent/{_shape(opa, opb, na == nb)}",
                                 f"is_concurrent(#{a},#{b})={conc} but history hb={hb}, "
                                 f"vc#{a}={ta.snapshot()} vc#{b}={tb.snapshot()}"))
+                if self.check_merge:
+                    out += self._check_merge_pair(a, ta, b, tb, hb)
             elif hb:
                 if not ta < tb:
                     comp = "LamportClock" if kind == "lamport" else "HybridLogicalClock"
                     out.append((f"{comp}/hb-implies-ts-less/{_shape(opa, opb, na == nb)}",
                                 f"event #{a} happened before #{b} but ts#{a}={ta} is not smaller than ts#{b}={tb}"))
+        if kind == "vector" and self.check_merge:
+            out += self._check_merge_self(b, tb)
+        return out
+
+    # -- VectorClock.merge ------------------------------------------------------------------
+    def _check_merge_pair(self, a, ta, b, tb, hb):
+        out = []
+        ra, rb = ta.snapshot(), tb.snapshot()
+        sa, sb = _nz(ra), _nz(rb)
+        want = dict(sa)
+        for k, v in sb.items():
+            if v > want.get(k, 0):
+                want[k] = v
+        mab = ta.merge(tb)
+        mba = tb.merge(ta)
+        self.merges += 2
+        gab, gba = _nz(mab.snapshot()), _nz(mba.snapshot())
+        if gab != want or gba != want:
+            keys = "same-keys" if set(ra) == set(rb) else "different-keys"
+            for got, order in ((gab, f"vc#{a}.merge(vc#{b})"), (gba, f"vc#{b}.merge(vc#{a})")):
+                if got != want:
+                    out.append((f"VectorClock/merge/element-wise-max/{keys}",
+                                f"{order} = {got}, the component-wise maximum of {sa} and {sb} is {want}"))
+            if gab != gba:
+                out.append((f"VectorClock/merge/commutative/{keys}",
+                            f"vc#{a}.merge(vc#{b}) = {gab} but vc#{b}.merge(vc#{a}) = {gba} "
+                            f"(vc#{a}={sa}, vc#{b}={sb})"))
+        # the combined view is an upper bound of both operands in the library's own order
+        # (one of the two views per pair, alternating)
+        m, ms = (mab, gab) if (a + b) % 2 else (mba, gba)
+        for t, st_, idx in ((ta, sa, a), (tb, sb, b)):
+            below = t.happened_before(m)
+            above = m.happened_before(t)
+            if above or (not below and ms != st_):
+                keys = "same-keys" if set(ra) == set(rb) else "different-keys"
+                mn = f"vc#{a}.merge(vc#{b})" if (a + b) % 2 else f"vc#{b}.merge(vc#{a})"
+                out.append((f"VectorClock/merge/upper-bound/{keys}",
+                            f"vc#{idx}={st_} is not ordered before-or-equal to the combined view {mn}={ms} "
+                            f"(happened_before: operand<view={below}, view<operand={above})"))
+        return out
+
+    def _check_merge_self(self, b, tb):
+        out = []
+        sb = _nz(tb.snapshot())
+        mm = tb.merge(tb)
+        self.merges += 1
+        if _nz(mm.snapshot()) != sb:
+            out.append(("VectorClock/merge/idempotent/same-keys",
+                        f"vc#{b}.merge(vc#{b}) = {_nz(mm.snapshot())} but vc#{b} = {sb}"))
+        if self.n >= 3:
+            cur = [self.clocks[i] for i in range(self.n)]
+            snaps = [_nz(c.snapshot()) for c in cur]
+            keys = "same-keys" if len({frozenset(c.snapshot()) for c in cur[:3]}) == 1 else "different-keys"
+            for (x, y, z) in (((0, 1, 2), (1, 2, 0), (2, 0, 1))[b % 3],):
+                left = cur[x].merge(cur[y]).merge(cur[z])
+                right = cur[x].merge(cur[y].merge(cur[z]))
+                self.merges += 4
+                want = {k: max(snaps[x].get(k, 0), snaps[y].get(k, 0), snaps[z].get(k, 0))
+                        for k in set(snaps[x]) | set(snaps[y]) | set(snaps[z])}
+                gl, gr = _nz(left.snapshot()), _nz(right.snapshot())
+                if gl != gr or gl != want:
+                    out.append((f"VectorClock/merge/associative/{keys}",
+                                f"(x.merge(y)).merge(z) = {gl}, x.merge(y.merge(z)) = {gr}, component-wise maximum "
+                                f"= {want} for the current clocks x={snaps[x]}, y={snaps[y]}, z={snaps[z]}"))
         return out
 
     def record(self, fp, desc):
@@ -327,6 +411,11 @@ def _shape(opa, opb, same_node):
     return f"{nm[opa]}-to-{nm[opb]}/{'same-node' if same_node else 'cross-node'}"
 
 
+def _nz(snap):
+    """A vector snapshot without its zero components (a missing component is 0)."""
+    return {k: v for k, v in snap.items() if v}
+
+
 def _ts_repr(ts):
     if isinstance(ts, VectorClock):
         return ts.snapshot()
@@ -371,7 +460,7 @@ def work(cfg):
     h.run()
     return {"transitions": h.transitions, "histories": h.histories, "prefixes": h.prefixes,
             "pairs_hb": h.pairs_hb, "pairs_conc": h.pairs_conc, "nontrivial": h.nontrivial,
-            "outcomes": h.outcomes, "viol": h.viol, "samples": h.samples, "reorder": h.reorder_seen,
+            "outcomes": h.outcomes, "viol": h.viol, "samples": h.samples, "reorder": h.reorder_seen, "merges": h.merges,
             "cpu_s": time.time() - t0}
 
 
